@@ -104,7 +104,7 @@ package evaluator
 //@   modifies contents(env.store)
 
 //@ func (e *Evaluator) evalProgram
-//@   return 1: assert error-passed-through-unchanged: result == stmtObj
+//@   return 0: assert error-passed-through-unchanged: result == stmtObj
 //@   requires prog != nil && WFNode(iface(prog)) && env != nil
 //@   use wfProgram(prog)
 //@   ensures result != nil
@@ -130,7 +130,7 @@ package evaluator
 //@   modifies contents(env.store)
 
 //@ func (e *Evaluator) evalBlockStmt
-//@   return 1: assert error-passed-through-unchanged: result == obj
+//@   return 0: assert error-passed-through-unchanged: result == obj
 //@   goal control-ends-the-block: istype(result, *object.Block) ==> forall(j, 0, len(as(result, *object.Block).Elements)-1,
 //@        !hasCtl(as(result, *object.Block).Elements[j], object.BREAK_OBJ) && !hasCtl(as(result, *object.Block).Elements[j], object.CONTINUE_OBJ))
 //@   call Eval#0: assert in-order-same-scope: arg1 == block.Statements[rangeindex] && arg2 == env && len(elems) == rangeindex
@@ -195,9 +195,9 @@ package evaluator
 //@ func (e *Evaluator) evalForStmt
 //@   return 0: assert error-passed-through-unchanged: result == init
 //@   return 1: assert error-passed-through-unchanged: result == cond__0
-//@   return 4: assert error-passed-through-unchanged: result == cond__1
-//@   return 5: assert error-passed-through-unchanged: result == block
-//@   return 6: assert error-passed-through-unchanged: result == post
+//@   return 3: assert error-passed-through-unchanged: result == cond__1
+//@   return 4: assert error-passed-through-unchanged: result == block
+//@   return 5: assert error-passed-through-unchanged: result == post
 //@   call Eval#2: bind elseResult
 //@   goal else-result-is-passed-through: node.Condition != nil && !isErr(cond__0) && !truthy(cond__0) && node.Alternative != nil && !isErr(init) ==> result == elseResult
 //@   call newError#*: assert error-carries-the-construct: arg1 == iface(node)
@@ -217,7 +217,7 @@ package evaluator
 
 //@ func (e *Evaluator) evalEachStmt
 //@   return 0: assert error-passed-through-unchanged: result == arrObj
-//@   return 5: assert error-passed-through-unchanged: result == block
+//@   return 4: assert error-passed-through-unchanged: result == block
 //@   call Eval#1: bind elseResult
 //@   goal else-result-is-passed-through: !isErr(arrObj) && istype(arrObj, *object.Array) && elemsLen == 0 && node.Alternative != nil ==> result == elseResult
 //@   call newError#*: assert error-carries-the-construct: arg1 == iface(node)
@@ -251,7 +251,7 @@ package evaluator
 //@   modifies contents(env.store)
 
 //@ func (e *Evaluator) evalSlotStmt
-//@   return 1: assert error-passed-through-unchanged: result == body
+//@   return 0: assert error-passed-through-unchanged: result == body
 //@   call Eval#0: assert slot-body-in-the-component-scope: arg1 == iface(node.Body) && arg2 == env
 //@   requires node != nil && WFNode(iface(node)) && env != nil
 //@   use wfSlotStmt(node)
@@ -339,8 +339,8 @@ package evaluator
 //@   call newError#*: assert error-carries-the-construct: arg1 == iface(node)
 //@   call dyncall#1: assert custom-only-without-builtin: !has(typeFuncs, node.Function.Value)
 //@   call dyncall#3: assert int-receiver-faithful: arg0 == as(receiverObj, *object.Int).Value && !has(typeFuncs, node.Function.Value)
-//@   call dyncall#5: assert float-receiver-faithful: same(arg0, as(receiverObj, *object.Float).Value)
-//@   call dyncall#4: assert bool-receiver-faithful: arg0 == as(receiverObj, *object.Bool).Value
+//@   call dyncall#4: assert float-receiver-faithful: same(arg0, as(receiverObj, *object.Float).Value)
+//@   call dyncall#5: assert bool-receiver-faithful: arg0 == as(receiverObj, *object.Bool).Value
 //@   call dyncall#0: assert builtin-gets-receiver-and-arguments: arg1 == receiverObj && arg2 == args
 //@   goal unknown-function-is-error: !isErr(receiverObj) && (!has(functions, objType(receiverObj))) ==> isErr(result)
 //@   requires node != nil && WFNode(iface(node)) && env != nil
